@@ -10,5 +10,6 @@ open Neutrino.Lockset
 #print axioms C18_caller_holds_minimal
 #print axioms C18_callbacks_reviewed
 #print axioms C18_ordered_used
+#print axioms C18_ordered_only_on_success
 #print axioms C18_no_reentrant_lock
 #print axioms C18_tables_used
